@@ -379,6 +379,12 @@ def replay_rejection(inputs: dict[str, Any], ob: Any) -> ReplayResult:
     app = falcon.App(middleware=mws)
     app.set_error_serializer(errs._make_error_serializer(hint))
     try:
+        earlier = inputs.get("earlier_request", "none")
+        if earlier != "none":
+            ea = inputs.get("earlier_accept") if earlier == "with_accept" else None
+            for ea_try in ([ea] if isinstance(ea, str) else []) + ([HTML, "application/json"] if earlier == "with_accept" else [None]):
+                # the earlier client of the same app, same rejection (the model's Accept first, then plain HTML / JSON ones)
+                falcon.testing.TestClient(app).simulate_post("/x", headers={"Accept": ea_try} if ea_try is not None else {})
         hdrs = {"Accept": accept} if accept is not None else {}
         r = falcon.testing.TestClient(app).simulate_post("/x", headers=hdrs)
     except Exception as e:
@@ -453,9 +459,11 @@ def rejection(S: Any) -> None:
         html_pages.append((reason, d, hint))
         return S.bytes("html_page")
 
+    cur = {"present": accept_present, "accept": accept}  # the Accept header of the request being served right now
+
     def get_header(S: Any, r: Any, name: Any, default: Any = None, **kw: Any) -> Any:
         if name == "Accept":
-            return accept if accept_present else default
+            return cur["accept"] if cur["present"] else default
         return default
 
     S.handlers["Resp.set_header"] = set_header
@@ -499,10 +507,36 @@ def rejection(S: Any) -> None:
 
     # ---- the real serializer of an app whose configured note is proxy_hint
     ser = S.call(errs._make_error_serializer, proxy_hint)
+    # history: the app may already have answered an earlier rejection with the same reason and detail, from a client
+    # with any Accept header (the serializer keeps rendered bodies between requests); what *this* client gets must
+    # not depend on it
+    earlier = S.choose(3)  # 0: first rejection on this app; 1: earlier client sent no Accept; 2: earlier client sent any Accept
+    S.inputs["earlier_request"] = ["none", "without_accept", "with_accept"][earlier]
+    first = None
+    if earlier:
+        cur["present"], cur["accept"] = earlier == 2, (S.str("earlier_accept") if earlier == 2 else None)
+        resp0 = SObj(None, kind="Resp")
+        out0 = S.outcome(ser, req, resp0, http_exc)
+        S.oblige("O2.serializer_is_total", out0.returned, kind="raises")
+        if not out0.returned:
+            return
+        first = {"kind": "json" if payloads else "html", "body": resp0.fields.get("data"), "payload": payloads[0] if payloads else None, "page": html_pages[0] if html_pages else None}
+        headers.clear()
+        payloads.clear()
+        html_pages.clear()
+        cur["present"], cur["accept"] = accept_present, accept
     out2 = S.outcome(ser, req, resp, http_exc)
     S.oblige("O2.serializer_is_total", out2.returned, kind="raises")
     if not out2.returned:
         return
+    if first is not None and not payloads and not html_pages:
+        # nothing was rendered for this request: the body is a remembered one - it must be the earlier rendering, and
+        # it is judged below as what it is (the JSON envelope or the HTML page rendered for the earlier client)
+        S.oblige("O2.remembered_body_is_the_earlier_rendering_of_the_same_rejection", resp.fields.get("data") is first["body"], kind="post")
+        if first["kind"] == "json":
+            payloads.append(first["payload"])
+        else:
+            html_pages.append(first["page"])
     want = expected_reasons(source)
     code = headers.get(AUTH_REASON_HEADER)
     S.oblige("O1.reason_header_is_a_closed_set_code", isinstance(code, str) and code in CLOSED, kind="post")
@@ -527,6 +561,7 @@ def rejection(S: Any) -> None:
         # an HTML page: only for a client that asked for text/html (spec §4.2 MUST NOT otherwise)
         S.oblige("O2.html_only_when_asked", asked_html, kind="post")
         S.oblige("O2.html_page_shows_the_same_reason_and_note", len(html_pages) == 1 and html_pages[0][0].value == code and html_pages[0][2] is proxy_hint, kind="post")
+        S.oblige("O2.html_content_type", isinstance(ctype, str) and ctype.startswith("text/html"), kind="post")
     # C21.O3: header form of the note
     ph = headers.get(AUTH_PROXY_REQUIRED_HEADER)
     if ph is None:
